@@ -99,6 +99,8 @@ def gen_life(rng, exe):
     return "\n".join(lines) + "\n", expect, forbid, kinds_used
 
 
+CLOSES_EVERYTHING = {"connect-refused", "connect-refused-unix", "pipe-transfer", "spawn-wait", "spawn-pipes-wait", "spawn-failed"}
+
 CYCLE_PRELUDE = r'''
 (def N (scan-number (get (dyn :args) 1)))
 (def EXE (get (dyn :args) 2))
@@ -121,11 +123,12 @@ CYCLE_PRELUDE = r'''
   c)
 (defn metrics [tag]
   (ev/sleep 0.1)     # lets finished threads, expired timers and reaped children settle
+  (def fds-before-gc (length (os/dir "/proc/self/fd")))
   (gccollect) (gccollect)
   (def s (verif/stats))
   (print "M " tag " fds=" (length (os/dir "/proc/self/fd")) " threads=" (length (os/dir "/proc/self/task")) " zombies=" (zombies) " children=" (children)
          " blocks=" (s :block-count) " roots=" (s :root-count) " listeners=" (s :listener-count) " timers=" (s :timer-count)
-         " tabstracts=" (s :threaded-abstracts) " livethreaded=" (s :live-threaded) " tasks=" (s :active-tasks))
+         " tabstracts=" (s :threaded-abstracts) " livethreaded=" (s :live-threaded) " tasks=" (s :active-tasks) " fdspregc=" fds-before-gc)
   (flush))
 (defn bench [cycle]
   (repeat 10 (cycle))
@@ -153,6 +156,8 @@ CYCLES = {
     "spawn-dropped": "(bench (fn [] (os/spawn [\"/bin/true\"] :p) (ev/sleep 0.002) (gccollect)))",
     "spawn-dropped-alive": "(bench (fn [] (os/spawn [\"/bin/sleep\" \"60\"] :p) (gccollect) (gccollect)))",
     "spawn-cancelled-wait": "(bench (fn [] (def p (os/spawn [\"/bin/sleep\" \"0.03\"] :p {:out :pipe})) (try (ev/with-deadline 0.005 (os/proc-wait p)) ([e] nil)) (ev/sleep 0.04)))",
+    "connect-refused": "(bench (fn [] (try (net/connect \"127.0.0.1\" \"1\") ([e] nil))))",
+    "connect-refused-unix": "(bench (fn [] (try (net/connect :unix \"/nonexistent-dir-xyz/sock\") ([e] nil))))",
     "spawn-failed": "(bench (fn [] (try (os/spawn [\"/nonexistent-program-xyz\"] :p {:out :pipe :err :pipe :in :pipe}) ([e] nil))))",
     "channel-traffic": "(def ch (ev/chan 2)) (bench (fn [] (ev/spawn (ev/give ch @[1 2 3])) (ev/take ch)))",
     "thread-channel-traffic": "(def a (ev/thread-chan 4)) (def b (ev/thread-chan 4)) (ev/thread (fn [&] (forever (def m (ev/take a)) (when (= m :stop) (break)) (ev/give b m))) nil :n) (bench (fn [] (ev/give a @{:k [1 2 3]}) (ev/take b)))",
@@ -271,6 +276,12 @@ def run(ctx):
                 continue
             if b - a > slack + (n // 2) * 0.02:
                 ctx.violation("unbounded:%s:%s" % (name, k), "%s over %d cycles: %s grew from %d (after N/2) to %d (after N); warm=%s" % (name, n, k, a, b, m.get("warm", {}).get(k)), files)
+        if name in CLOSES_EVERYTHING:
+            # these cycles close (or never obtain) every descriptor themselves: the count must be bounded even BEFORE a collection
+            # has had the chance to finalise forgotten streams
+            a, b = m.get("warm", {}).get("fds"), m["full"].get("fdspregc")
+            if a is not None and b is not None and b - a > 16:
+                ctx.violation("unbounded:%s:fds-before-collection" % name, "%s over %d cycles: %d descriptors open before collecting (%d after warm-up): they are only released by the collector" % (name, n, b, a), files)
         ctx.sample({"cycle": name, "n": n, "half": m["half"], "full": m["full"]}, cap=5)
 
     core.pmap(cyc, range(len(jobs)), jobs=8)
